@@ -732,6 +732,8 @@ def main():
     keep = "--keep" in sys.argv
     if "--only" in sys.argv:
         only = set(sys.argv[sys.argv.index("--only") + 1].split(","))
+        # development runs over a subset must not overwrite the evidence of the registered check
+        os.environ.setdefault("VERIF_EVIDENCE_DIR", os.path.join(tempfile.gettempdir(), "verif-dev-evidence"))
     seed = int(os.environ.get("VERIF_SEED", "0") or 0)
     t_start = time.time()
     obs = obligations.select(prop, tier, seed)
@@ -910,6 +912,13 @@ def write_evidence(prop, tier, seed, obs, results, wall, n_viol, extra):
             "obligations": len(obs),
             "discharged": discharged,
             "functions_encoded": sorted(fns),
+            # model-checking keys: what the symbolic execution explored, as measured by CBMC on this run
+            "states": max(1, sum(int(r.get("steps", 0) or 0) for r in results) + sum(int(r.get("paths", 0) or 0) for r in results)),
+            "transitions": max(1, sum(int(r.get("vccs", 0) or 0) for r in results)),
+            "traces_validated_against_impl": sum(1 for r in results if r.get("replay_dev") or r.get("replay_release")),
+            "states_meaning": "SSA steps of the symbolic program expression (CBMC 'size of program expression'), summed over "
+                              "obligations, plus MIR paths of engine M; transitions = generated verification conditions; "
+                              "traces_validated_against_impl = solver counterexamples replayed natively in this run",
             "solver_time_s": round(sum(r.get("solver_s", 0) for r in results), 2),
             "symex_time_s": round(sum(r.get("symex_s", 0) for r in results), 2),
             "exhaustive": False,
@@ -939,4 +948,12 @@ def obligations_assumptions(obs):
 
 
 if __name__ == "__main__":
-    main()
+    try:
+        main()
+    except SystemExit:
+        raise
+    except BaseException as e:  # noqa  -- a crash of the driver is never a verdict
+        import traceback
+        traceback.print_exc()
+        print("INCONCLUSIVE driver error: %r" % (e,))
+        sys.exit(2)
